@@ -57,7 +57,6 @@ SIG = "C14|{}|{}"
 # failure kinds (fixed vocabulary)
 K_OTHER = "other-entry-changed"
 K_AMOUNT = "visited-entry-wrong-amount"
-K_NOCHANGE = "visited-entry-not-updated"
 K_BOTH = "both-tables-changed"
 K_TERMINAL = "bootstrap-on-terminal"
 K_TRUNC = "truncation-masked-like-termination"
@@ -92,10 +91,11 @@ BASE_TABLES = [
 TABLE_33 = [[1, -2, 4], [0, 3, 3], [2, -1, 2]]
 
 
-def table(i, seed):
-    """Table i of the alphabet; the seed shifts all values by an exact dyadic offset (ties stay ties)."""
+def table(i, seed, shift=0.0):
+    """Table i of the alphabet; the seed shifts all values by an exact dyadic offset (ties stay ties).
+    Histories use shift=0.25: no entry is zero, so a masked bootstrap never coincides with an unmasked one."""
     t = np.asarray(TABLE_33 if i == "33" else BASE_TABLES[i], dtype=np.float32)
-    return t + np.float32(0.5 * (seed % 4))
+    return t + np.float32(0.5 * (seed % 4) + shift)
 
 
 def other_table(q):
@@ -107,14 +107,17 @@ def other_table(q):
 
 
 def locate(col, modname, attr, params):
-    """The callable rl_blox.algorithm.<modname>.<attr> if it exists and has the named parameters, else None."""
+    """rl_blox.algorithm.<modname>.<attr> if it exists, has the named parameters and needs no others; else None
+    (a renamed / re-shaped helper is reduced coverage, not a violation)."""
     try:
         mod = importlib.import_module(f"rl_blox.algorithm.{modname}")
         fn = getattr(mod, attr)
-        have = set(inspect.signature(fn).parameters)
+        sig = inspect.signature(fn).parameters
+        have = set(sig)
+        required = {k for k, v in sig.items() if v.default is inspect.Parameter.empty and v.kind not in (v.VAR_POSITIONAL, v.VAR_KEYWORD)}
     except Exception:
-        fn, have = None, set()
-    if fn is None or not set(params) <= have:
+        fn, have, required = None, set(), set()
+    if fn is None or not set(params) <= have or not required <= set(params):
         col.outcome(f"not_located:{modname}.{attr}")
         col.cap(f"helper {modname}.{attr}({', '.join(params)}) not located: single-update sub-check skipped")
         return None
@@ -133,9 +136,9 @@ def _entries_changed(a, b):
 
 
 def judge_entry(prev, new, s, a, cands, alts):
-    """None if `new` equals `prev` except that entry (s,a) is close to one of `cands`; else a failure kind.
-
-    alts: ordered {kind: [values]} of diagnostic hypotheses tried when no candidate matches."""
+    """None if `new` equals `prev` except that entry (s,a) is close to one of `cands`; a failure kind (str) for a
+    structural failure; else the list of diagnostic hypotheses (kinds of `alts`: {kind: [values]}) that the wrong
+    value of the visited entry agrees with (possibly empty) - see Findings for how these become one signature."""
     if new.shape != prev.shape or new.dtype != prev.dtype:
         return K_SHAPE
     others = [e for e in _entries_changed(prev, new) if e != (s, a)]
@@ -144,12 +147,37 @@ def judge_entry(prev, new, s, a, cands, alts):
     v = float(new[s, a])
     if any(close(v, c) for c in cands):
         return None
-    for kind, vals in alts.items():
-        if any(close(v, c) for c in vals):
-            return kind
-    if new[s, a] == prev[s, a]:
-        return K_NOCHANGE
-    return K_AMOUNT
+    return [kind for kind, vals in alts.items() if any(close(v, c) for c in vals)]
+
+
+DIAG_ORDER = ["successor-action-chosen-at-current-state", "bootstrap-on-terminal", "truncation-masked-like-termination"]
+
+
+class Findings:
+    """Violations of one work item.  A wrong amount in the visited entry gets a diagnostic failure kind only if
+    EVERY wrong amount of that entry point in the item agrees with the same hypothesis (a single case can agree
+    with a hypothesis by coincidence); otherwise all of them are reported as `visited-entry-wrong-amount`.
+    Emitted smallest case first."""
+
+    def __init__(self, col):
+        self.col, self.fixed, self.amount, self.n = col, [], {}, 0
+
+    def add(self, entry, verdict, detail, sortkey=None):
+        self.n += 1
+        sortkey = (self.n,) if sortkey is None else sortkey
+        if isinstance(verdict, str):
+            self.fixed.append((sortkey, SIG.format(entry, verdict), detail))
+        else:
+            self.amount.setdefault(entry, []).append((sortkey, set(verdict), detail))
+
+    def flush(self):
+        for entry, lst in self.amount.items():
+            common = set.intersection(*[m for _, m, _ in lst])
+            kind = next((k for k in DIAG_ORDER if k in common), K_AMOUNT)
+            self.fixed += [(k, SIG.format(entry, kind), d) for k, _, d in lst]
+        for _, sig, detail in sorted(self.fixed, key=lambda x: (x[0], x[1])):
+            self.col.violation(sig, detail)
+        self.fixed, self.amount = [], {}
 
 
 def td(q, s, a, r, gamma, mask, v, lr):
@@ -200,6 +228,7 @@ def work_single_td(item, col):
     key = jax.random.key(seed)
     Q64, Q264 = Q.astype(np.float64), Q2.astype(np.float64)
     sampled = 0
+    found = Findings(col)
     for s, a, s2, a2 in itertools.product(range(nS), range(nA), range(nS), range(nA)):
         if learner == "ql" and a2 not in argmaxes(Q[s2]):
             continue  # train_q_learning only ever supplies a greedy successor action (every tied one is tried)
@@ -254,14 +283,15 @@ def work_single_td(item, col):
             if s == s2:
                 col.outcome("self_loop_cases")
             kind = judge_entry(Q, out, s, a, cands, alts)
-            if kind:
+            if kind is not None:
                 if learner == "dql":
                     case["table2"] = Q2.tolist()
-                col.violation(SIG.format(entry, kind), dict(case=case, expected_entry=cands, got_entry=float(out[s, a]) if out.shape == Q.shape else None,
+                found.add(entry, kind, dict(case=case, expected_entry=cands, got_entry=float(out[s, a]) if out.shape == Q.shape else None,
                                                             changed=_entries_changed(Q, out) if out.shape == Q.shape and out.dtype == Q.dtype else None))
             elif sampled < 2 and nontrivial:
                 sampled += 1
                 col.sample(dict(case=case, expected_entry=cands[0], got_entry=float(out[s, a])))
+    found.flush()
 
 
 # -- Monte-Carlo update ------------------------------------------------------------------------
@@ -564,6 +594,7 @@ def hist_configs(tier, seed):
     cfgs = []
     for learner in ("ql", "sarsa", "dql"):
         cfgs.append(dict(base, learner=learner, cfg=f"{learner}-g.5-lr.5"))
+    cfgs.append(dict(base, learner="dql", seed=8 + seed, table=2, cfg="dql-g.5-lr.5-seedB"))  # other table-choice pattern
     cfgs.append(dict(base, learner="mc", nv=None, cfg="mc-g.5-fresh"))
     cfgs.append(dict(base, learner="mc", nv=[[0, 1], [2, 0], [1, 3]], table=2, cfg="mc-g.5-continued"))
     cfgs.append(dict(base, learner="dyna", k=0, buf=1000, cfg="dyna-k0"))
@@ -583,7 +614,7 @@ def hist_configs(tier, seed):
 def run_history(cfg, seq, col):
     """One run of the public train_* with total_timesteps=len(seq). -> (tables dict, env, extras)"""
     env = ChainEnv(seq, r_off=0.25 * (cfg["seed"] % 4))
-    Q = table(cfg["table"], cfg["seed"] - 1)
+    Q = table(cfg["table"], cfg["seed"] - 1, 0.25)
     n = len(seq)
     L = cfg["learner"]
     extras = {}
@@ -626,7 +657,8 @@ def run_history(cfg, seq, col):
         if wrapped:
             def rec(*a, **kw):
                 b = sig.bind(*a, **kw)
-                calls.append((np.asarray(b.arguments["model_transition"]), np.asarray(b.arguments["model_reward"])))
+                calls.append((np.asarray(b.arguments["model_transition"]), np.asarray(b.arguments["model_reward"]),
+                              np.asarray(b.arguments["q_table"]) if "q_table" in b.arguments else None))
                 return orig(*a, **kw)
 
             dynaq.planning = rec
@@ -642,7 +674,7 @@ def run_history(cfg, seq, col):
 
 
 def initial_tables(cfg):
-    Q = table(cfg["table"], cfg["seed"] - 1)
+    Q = table(cfg["table"], cfg["seed"] - 1, 0.25)
     L = cfg["learner"]
     if L == "dql":
         return {"q1": Q, "q2": other_table(Q)}
@@ -696,6 +728,9 @@ def judge_step(cfg, seq, prev, new, trans, extras, col):
             res.append((kind, dict(updated_table=u, expected_entry=cands, got_entry=float(new[u][s, a])), nontriv, cands, alts))
         ok = [x for x in res if x[0] is None]
         pick = ok[0] if ok else res[0]
+        if not ok and len(res) == 2 and all(isinstance(x[0], list) for x in res):
+            # neither table moved: a hypothesis counts if it explains that for either table
+            pick = (sorted(set(res[0][0]) | set(res[1][0])),) + res[0][1:]
         if len(sides) == 1 and not term:
             if not any(close(x, c) for x in pick[4][K_CURSTATE] for c in pick[3]):
                 col.outcome("dql_steps_where_greedy_at_current_state_gives_another_value")
@@ -757,11 +792,18 @@ def judge_step(cfg, seq, prev, new, trans, extras, col):
         elif any(e not in allowed for e in ch):
             kind = K_OTHER
         elif cfg["k"] == 0:
-            kind = K_NOCHANGE if not ch else K_AMOUNT
+            kind = K_AMOUNT
         else:
-            # was the real-transition update alone right?  (diagnosis: planning vs direct update)
+            # attribution: the table handed to dynaq.planning (when observable) is the result of the real-transition
+            # update alone; if that one is already wrong the failure is the direct update, not the replay
             kind = K_REPLAY
-        detail = dict(got=new["q"], changed=ch, n_candidates=len(cands))
+            calls = extras.get("model_calls")
+            if calls and len(calls) == len(trans) and calls[-1][2] is not None:
+                mid = calls[-1][2]
+                if not match_candidates(p, mid, starts, p.shape):
+                    kind = K_AMOUNT
+                    detail = dict(table_after_real_transition_update=mid)
+        detail = dict(detail, got=new["q"], changed=ch, n_candidates=len(cands))
     if kind is None and extras.get("model_calls") is not None:
         calls = extras["model_calls"]
         if len(calls) == len(trans):
@@ -781,13 +823,14 @@ def work_history(item, col):
     entry = ENTRY[cfg["learner"]]
     prefix = item["prefix"]
     model_unobserved = [False]
+    found = Findings(col)  # violations of this item, reported shortest history first
 
     def run(seq):
         try:
             return run_history(cfg, seq, col)
         except Exception as e:
             col.tick(1)
-            col.violation(SIG.format(entry, K_RAISED), dict(cfg=cfg["cfg"], answers="".join(seq), error=repr(e)[:300]))
+            found.add(entry, K_RAISED, dict(cfg=cfg["cfg"], answers="".join(seq), error=repr(e)[:300]), (len(seq), "".join(seq)))
             return None
 
     def check(seq, parent, res):
@@ -807,11 +850,11 @@ def work_history(item, col):
             col.outcome("steps_revisiting_an_entry")
         if not nontriv:
             col.outcome("steps_with_zero_reference_change")
-        if kind:
+        if kind is not None:
             detail = dict(detail or {})
             detail.update(cfg=cfg["cfg"], answers="".join(seq), step=len(seq), transition_s_a_r_s2_term_trunc=list(trans[-1]),
                           tables_before=prev_json(parent[0]), params=dict(gamma=cfg["gamma"], lr=cfg["lr"], epsilon=cfg["eps"], seed=cfg["seed"]))
-            col.violation(SIG.format(entry, kind), detail)
+            found.add(entry, kind, detail, (len(seq), "".join(seq)))
         elif nontriv and len(seq) == T:
             col.sample(dict(cfg=cfg["cfg"], answers="".join(seq), transition=list(trans[-1]), before=prev_json(parent[0]), after=prev_json(tabs)))
 
@@ -824,6 +867,7 @@ def work_history(item, col):
         seq = prefix[:d]
         res = run(seq)
         if res is None:
+            found.flush()
             return
         if d == len(prefix) or item["check_root"]:
             check(seq, parent, res)
@@ -843,7 +887,10 @@ def work_history(item, col):
             check(s2, parent, res)
             dfs(s2, (res[0], res[1].transitions()))
 
-    dfs(list(prefix), parent)
+    try:
+        dfs(list(prefix), parent)
+    finally:
+        found.flush()
     if model_unobserved[0]:
         col.outcome("not_located:dynaq.planning(model_transition, model_reward)")
         col.cap("dynaq.planning(model_transition, model_reward) not located: the model inside train_dynaq was not observed")
